@@ -290,4 +290,33 @@ def pair_table(rng):
                 if ca in ("lin", "linauto", "mat", "nonlin", "composed"):
                     a2 = leaf(rng, ca, [2], [3], lambda: dta)
                     cases.append((f"{ca}[{dta}] {op} (2->3)", {"t": op, "a": a2}))
+    # operands whose input and output dtypes differ (real -> complex) under every class, and Diagonals
+    # with an explicit input_dtype different from the dtype of the diagonal
+    def rc_lin(hasadj, insh=sq, outsh=sq):
+        e = leaf(rng, "lin" if hasadj else "linauto", insh, outsh, lambda: "complex128")
+        e["indt"] = "float64"
+        return e
+
+    def diag_explicit(ddt, indt):
+        e = leaf(rng, "diag", sq, sq, lambda: ddt)
+        e["indt"] = indt
+        return e
+
+    specials = [("lin R->C", lambda: rc_lin(True)), ("linauto R->C", lambda: rc_lin(False)),
+                ("diag real d, complex input_dtype", lambda: diag_explicit("float64", "complex128")),
+                ("diag complex d, real input_dtype", lambda: diag_explicit("complex128", "float64")),
+                ("diag f32 d, f64 input_dtype", lambda: diag_explicit("float32", "float64"))]
+    for nm, mk in specials:
+        for op in ("neg", "T", "H", "conj", "gram"):
+            cases.append((f"{nm} {op}", {"t": op, "a": mk()}))
+        for op2 in ("T", "H", "conj", "gram"):
+            cases.append((f"{nm} conj.{op2}", {"t": op2, "a": {"t": "conj", "a": mk()}}))
+        for ca in CLASSES:
+            for dta in ("float64", "complex128"):
+                for op in ("comp", "matmul", "add", "sub"):
+                    a = leaf(rng, ca, sq, sq, lambda: dta)
+                    if a is None:
+                        continue
+                    cases.append((f"{ca}[{dta[0]}] {op} ({nm})", {"t": op, "a": a, "b": mk()}))
+                    cases.append((f"({nm}) {op} {ca}[{dta[0]}]", {"t": op, "a": mk(), "b": leaf(rng, ca, sq, sq, lambda: dta)}))
     return cases
